@@ -316,7 +316,12 @@ Proof.
   assert (K3 : keep m c c3) by (eapply keep_trans; [exact K1|]; eapply keep_trans; [exact K2|unfold c3; same_vals]).
   destruct br.
   - inversion H; subst; auto.
-  - destruct (IH _ _ _ _ _ H R2) as [K T]; [auto with inv| rewrite top_base_clear_values, top_base_upd_top by reflexivity; lia |].
+  - destruct (top_code_empty _).
+    { inversion H; subst. split.
+      - eapply keep_trans; [exact K3|].
+        apply (keep_trans _ _ (upd_top c3 (fun f0 => set_pos f0 0))); [same_vals|apply keep_clear_values; [auto with inv|rewrite top_base_upd_top by reflexivity; lia]].
+      - rewrite top_base_clear_values, top_base_upd_top by reflexivity. exact T3. }
+    destruct (IH _ _ _ _ _ H R2) as [K T]; [auto with inv| rewrite top_base_clear_values, top_base_upd_top by reflexivity; lia |].
     rewrite top_base_clear_values, top_base_upd_top in T by reflexivity.
     split; [|congruence].
     eapply keep_trans; [exact K3|]. eapply keep_trans; [|exact K].
@@ -477,7 +482,8 @@ Proof.
   unfold bindr in H.
   match type of H with context [enact b r ?x] => destruct (enact b r x) as [p| | |] eqn:E end; try discriminate.
   destruct p as [[[br b'] r2] c2].
-  apply ext_enact in E. destruct br; try (inversion H; subst; exact E); (eapply ext_trans; [exact E|eapply IH; eauto]).
+  apply ext_enact in E. destruct br; try (inversion H; subst; exact E);
+    try (destruct (top_code_empty _); [inversion H; subst; exact E|]); (eapply ext_trans; [exact E|eapply IH; eauto]).
 Qed.
 
 Lemma ext_handle_error : forall fuel r c msgs skip b r' c', handle_error fuel r c msgs skip = Ok (b, r', c') -> Ext r r'.
@@ -572,7 +578,20 @@ Proof.
     destruct (on_error_ctx _ _ _ _ E2 (rinv_upd_cur _ _ R1 I1) (CU c1)) as (c6 & C6 & L6 & K6 & _).
     assert (c' = c6) by (destruct rec; inversion H; subst; cbn [rt_of] in C'; congruence). subst c6.
     eapply keep_trans; [exact K1|apply K6; exact B'].
-  - destruct fr; [destruct (Nat.eqb (length (c_frames c1)) (length (f0 :: fs0)))|].
+  - destruct fr; [destruct (Nat.eqb (length (c_frames c1)) (length (f0 :: fs0)))| |].
+    4: { (* an empty scope restarted: only the deadline is looked at *)
+      match type of H with context [if ?b then _ else _] => destruct b eqn:EZ end.
+      - cbv beta iota zeta in H. inversion H; subst. cbn [rt_of] in C'. rewrite CU in C'. inversion C'; subst c'. exact K1.
+      - unfold now in H. cbv beta iota zeta in H.
+        assert (CC : cur (upd_cur (set_clock r1 (r_clock r1 + r_tick r1)) c1) = Some c1)
+          by (eapply cur_upd_ext; [exact C|eapply ext_trans; [exact X1|auto with ext]]).
+        match type of H with context [if ?b then _ else _] => destruct b eqn:EX end.
+        + inversion H; subst. cbn [rt_of] in C'.
+          assert (c' = c1).
+          { change (cur (logmsg (upd_cur (set_clock r1 (r_clock r1 + r_tick r1)) c1) d_MaximumRuntimeReached) = Some c') in C'.
+            rewrite cur_logmsg in C'. congruence. }
+          subst c'. exact K1.
+        + inversion H; subst. cbn [rt_of] in C'. assert (c' = c1) by congruence. subst c'. exact K1. }
     + (* completion *)
       inversion H; subst. cbn [rt_of] in C'. rewrite CU in C'. inversion C'; subst c'. clear C'.
       eapply keep_trans; [exact K1|].
